@@ -575,6 +575,9 @@ class Interp(object):
             raise
 
     def _attr_error(self, obj, name, fr):
+        if isinstance(obj, Obj) and getattr(obj, 'partial', False) and name.startswith('_') and '__' in name[1:] and not getattr(self, 'try_depth', 0):
+            # instance built by a harness with only the fields its contract talks about: a private field it did not model
+            raise Unsupported('private field %s of a partially modelled %s instance' % (name, obj.cls.name))
         raise PyRaise(self.make_exc('AttributeError', '%r has no attribute %s' % (obj, name)))
 
     def _getattr(self, obj, name, fr):
@@ -892,11 +895,18 @@ class Interp(object):
                 pass
             else:
                 return False
+        b_first = (isinstance(a, Obj) and isinstance(b, Obj) and b.cls is not a.cls and a.cls in getattr(b.cls, 'mro', ()) and
+                   self._has_dunder(b, '__eq__') and self._dunder_owner(b, '__eq__') is not self._dunder_owner(a, '__eq__'))
+        if b_first:
+            # Python tries the reflected method of a proper subclass that overrides it first
+            r = self.call(self._getattr(b, '__eq__', fr), [a], {}, fr)
+            if r is not NOTIMPL:
+                return r
         if isinstance(a, Obj) and self._has_dunder(a, '__eq__'):
             r = self.call(self._getattr(a, '__eq__', fr), [b], {}, fr)
             if r is not NOTIMPL:
                 return r
-        if isinstance(b, Obj) and self._has_dunder(b, '__eq__'):
+        if isinstance(b, Obj) and self._has_dunder(b, '__eq__') and not b_first:
             r = self.call(self._getattr(b, '__eq__', fr), [a], {}, fr)
             if r is not NOTIMPL:
                 return r
@@ -947,6 +957,12 @@ class Interp(object):
             return False
         c, e = o.cls.lookup(name)
         return e is not None
+
+    def _dunder_owner(self, o, name):
+        if not isinstance(o.cls, ClassV):
+            return None
+        c, e = o.cls.lookup(name)
+        return c
 
     def py_ne(self, a, b, fr):
         if isinstance(a, Obj) and self._has_dunder(a, '__ne__'):
@@ -1319,6 +1335,17 @@ class Interp(object):
                     if n is None:
                         raise Unsupported('iteration over symbolic-length object')
                 return [self.getitem(v, i, fr) for i in range(int(n))]
+            if self._has_dunder(v, '__getitem__'):
+                # legacy sequence protocol: __getitem__(0), (1), ... until IndexError
+                out = []
+                for i in range(65):
+                    try:
+                        out.append(self.getitem(v, i, fr))
+                    except PyRaise as e:
+                        if self.exc_isinstance(e.exc, 'IndexError'):
+                            return out
+                        raise
+                raise Unsupported('iteration by __getitem__ did not end within 64 items')
         raise Unsupported('iteration over %r' % (v,))
 
     # ---- statements
@@ -1546,7 +1573,11 @@ class Interp(object):
     def s_Try(self, s, env, fr):
         try:
             try:
-                self.exec_block(s.body, env, fr)
+                self.try_depth = getattr(self, 'try_depth', 0) + (1 if s.handlers else 0)
+                try:
+                    self.exec_block(s.body, env, fr)
+                finally:
+                    self.try_depth -= (1 if s.handlers else 0)
             except PyRaise as pr:
                 for h in s.handlers:
                     if h.type is None:
